@@ -70,15 +70,26 @@ func (t *Term) IsTrue() bool  { return t.Op == OpConst && t.W == 0 && t.Val == 1
 func (t *Term) IsFalse() bool { return t.Op == OpConst && t.W == 0 && t.Val == 0 }
 
 // Ctx owns the terms of one symbolic run.
+type tkey struct {
+	op         Op
+	w          int
+	val        uint64
+	aux        int
+	name       string
+	n          int
+	a0, a1, a2 int
+}
+
 type Ctx struct {
 	table map[string]*Term
+	fast  map[tkey]*Term
 	terms []*Term
 	Vars  []*Term
 	T, F  *Term
 }
 
 func NewCtx() *Ctx {
-	c := &Ctx{table: map[string]*Term{}}
+	c := &Ctx{table: map[string]*Term{}, fast: map[tkey]*Term{}}
 	c.T = c.mk(&Term{Op: OpConst, W: 0, Val: 1})
 	c.F = c.mk(&Term{Op: OpConst, W: 0, Val: 0})
 	return c
@@ -89,6 +100,27 @@ func (c *Ctx) NumTerms() int { return len(c.terms) }
 func (c *Ctx) TermByID(id int) *Term { return c.terms[id] }
 
 func (c *Ctx) mk(t *Term) *Term {
+	if len(t.Args) <= 3 {
+		k := tkey{op: t.Op, w: t.W, val: t.Val, aux: t.Aux, name: t.Name, n: len(t.Args), a0: -1, a1: -1, a2: -1}
+		switch len(t.Args) {
+		case 3:
+			k.a2 = t.Args[2].ID
+			fallthrough
+		case 2:
+			k.a1 = t.Args[1].ID
+			fallthrough
+		case 1:
+			k.a0 = t.Args[0].ID
+		}
+		if x, ok := c.fast[k]; ok {
+			return x
+		}
+		t.ID = len(c.terms)
+		t.ctx = c
+		c.terms = append(c.terms, t)
+		c.fast[k] = t
+		return t
+	}
 	var sb strings.Builder
 	fmt.Fprintf(&sb, "%d/%d/%d/%d/%s", t.Op, t.W, t.Val, t.Aux, t.Name)
 	for _, a := range t.Args {
@@ -123,7 +155,11 @@ func (c *Ctx) Const(v uint64, w int) *Term {
 	if w == 0 {
 		return c.Bool(v != 0)
 	}
-	return c.mk(&Term{Op: OpConst, W: w, Val: v & mask(w)})
+	v &= mask(w)
+	if x, ok := c.fast[tkey{op: OpConst, w: w, val: v, a0: -1, a1: -1, a2: -1}]; ok {
+		return x
+	}
+	return c.mk(&Term{Op: OpConst, W: w, Val: v})
 }
 
 func (c *Ctx) Var(name string, w int) *Term {
@@ -598,6 +634,23 @@ func (t *Term) SMTName() string {
 		return t.Name
 	}
 	return fmt.Sprintf("t%d", t.ID)
+}
+
+func SortStr(w int) string { return sortStr(w) }
+
+// Body renders the defining expression of t over the given argument symbols.
+func (t *Term) Body(args []string) string {
+	switch t.Op {
+	case OpVar:
+		return fmt.Sprintf("var:%s:%d", t.Name, t.W)
+	case OpZExt:
+		return fmt.Sprintf("((_ zero_extend %d) %s)", t.W-t.Args[0].W, args[0])
+	case OpSExt:
+		return fmt.Sprintf("((_ sign_extend %d) %s)", t.W-t.Args[0].W, args[0])
+	case OpExtract:
+		return fmt.Sprintf("((_ extract %d %d) %s)", t.Aux>>8, t.Aux&0xff, args[0])
+	}
+	return "(" + opNames[t.Op] + " " + strings.Join(args, " ") + ")"
 }
 
 // Def returns the SMT-LIB2 command that introduces t (declare-const for
